@@ -184,22 +184,31 @@ def run_gave_up(spec):
     t0 = r.seconds()
     states = set()
 
+    who = lead if spec["closer"] == "leader" else foll
+    other = foll if who == lead else lead
+    left = set()         # sides whose own Manager has left CONNECTED, i.e. which have given the silent connection up themselves
+
     def hook():
         states.add("%s/%s" % (dp.mstate(lead), dp.mstate(foll)))
+        for n_ in (lead, foll):
+            if dp.mstate(n_) != "CONNECTED":
+                left.add(n_)
     sch.hook = hook
     if spec["wait"]:
         sch.drain(spec["wait"] + rng.random(), 60000)
     else:
-        # close() a few steps after the first sign that somebody has given the connection up
-        sch.drain(30.0, 60000, until=lambda: any(not s_.startswith("CONNECTED/CONNECTED") for s_ in states))
+        # close() a few steps after the closing side itself has given the connection up (before that it is simply a
+        # close() on a silently dead link with unsent data, which only the kernel's retransmission limit ends - not modelled)
+        sch.drain(30.0, 60000, until=lambda: who in left)
         sch.drain(30.0, rng.randint(0, 40))
-    who = lead if spec["closer"] == "leader" else foll
-    other = foll if who == lead else lead
     app = dp.apps[who]
     mgr = dp.manager(who)
     info = {"manager_state": dp.mstate(who), "peer_manager_state": dp.mstate(other), "role": spec["closer"], "waited": round(r.seconds() - t0, 2),
             "states_seen_while_waiting": sorted(states)}
-    gave_up = any(not s_.startswith("CONNECTED/CONNECTED") for s_ in states)
+    gave_up = who in left
+    if not gave_up:
+        world.finish()
+        return {"violations": [], "nontrivial": None, "counters": {"gave_up_cases_in_which_the_closer_never_gave_up": 1}, "sets": {}, "sample": {"spec": spec, "at_close": info}}
     app.close()
     end = sch.drain(300.0, 60000, until=lambda: app.closed)
     if end == "steps":
